@@ -364,6 +364,188 @@ def fanout_oracle(obs):
     return None
 
 
+def scenario_recreate(s, seed, lines=False):
+    """Remove and re-create a publisher under the same name.  Thread A removes publisher "pub" of c1 whose
+    release_rpc_object() takes (virtual) time; thread B meanwhile creates "pub" again (retrying while the name
+    is taken), subscribes a local receiver and a receiver in the connected context c2 to the new object and
+    publishes; more publications follow when A is done.  Also records the life-cycle events of the name."""
+    import random
+    import threading as real_threading
+    import common
+    import qmi.core.context as C
+    import qmi.core.rpc as R
+    import qmi.core.pubsub as P
+    from qmi.core.config_defs import CfgQmi, CfgContext
+    from qmi.core.exceptions import QMI_TimeoutException, QMI_DuplicateNameException
+    logging.disable(logging.CRITICAL)
+    rng = random.Random(seed)
+    obs = {"pubs": [], "queues": {}, "events": [], "done": False, "subs": {}, "tries": 0}
+    s.obs = obs
+    s.recording = False
+    slow = rng.choice([0.0, 0.002, 0.01, 0.05])
+
+    class Pub(R.QMI_RpcObject):
+        s = P.QMI_Signal([int])
+
+        def release_rpc_object(self):
+            dsched.FAKE_TIME.sleep(slow)      # a slow release (closing a device): a scheduling point
+
+    port = 55000 + (seed % 500)
+    c1 = C.QMI_Context("c1", CfgQmi(contexts={"c1": CfgContext(host="127.0.0.1", tcp_server_port=port)}))
+    c1.start()
+    c2 = C.QMI_Context("c2")
+    c2.start()
+    c2.connect_to_peer("c1", "127.0.0.1:%d" % port)
+    old = c1.make_rpc_object("pub", Pub)
+    r_old = P.QMI_SignalReceiver()
+    c1.subscribe_signal("c1", "pub", "s", r_old)
+    r_old2 = P.QMI_SignalReceiver()
+    if rng.random() < 0.5:
+        c2.subscribe_signal("c1", "pub", "s", r_old2)
+
+    # life-cycle events of the object map and of the subscription clean-up (observed from outside)
+    ev = obs["events"]
+
+    class LoggedMap(dict):
+        def __setitem__(self, k, v):
+            if k == "pub":
+                ev.append("mark" if (v is None and dict.get(self, k) is not None) else ("reserve" if v is None else "created"))
+            dict.__setitem__(self, k, v)
+
+        def __delitem__(self, k):
+            if k == "pub":
+                ev.append("release")
+            dict.__delitem__(self, k)
+
+    common.poke(c1, "_rpc_object_map", LoggedMap(c1._rpc_object_map))
+    sm = c1._signal_manager
+    orig_removed = sm.handle_object_removed
+
+    def logged_removed(name):
+        if name == "pub":
+            ev.append("cleanup")
+        return orig_removed(name)
+    sm.handle_object_removed = logged_removed
+
+    r_loc, r_rem = P.QMI_SignalReceiver(), P.QMI_SignalReceiver()
+    k1, k2 = rng.randint(0, 2), rng.randint(1, 3)
+
+    def remover():
+        c1.remove_rpc_object(old)
+
+    def creator():
+        while True:
+            obs["tries"] += 1
+            try:
+                c1.make_rpc_object("pub", Pub)
+                break
+            except QMI_DuplicateNameException:
+                dsched.FAKE_TIME.sleep(0.001)
+        c1.subscribe_signal("c1", "pub", "s", r_loc)
+        obs["subs"]["local"] = "ok"
+        c2.subscribe_signal("c1", "pub", "s", r_rem)
+        obs["subs"]["remote"] = "ok"
+        for i in range(k1):
+            c1.publish_signal("pub", "s", 100 + i)
+            obs["pubs"].append(100 + i)
+
+    ta = real_threading.Thread(target=remover, name="remover")
+    tb = real_threading.Thread(target=creator, name="creator")
+    if lines:
+        dsched.enable_line_yields([C.QMI_Context.remove_rpc_object, C.QMI_Context._internal_make_rpc_object,
+                                   C.QMI_Context.make_rpc_object, P.SignalManager.handle_object_removed])
+    s.recording = True
+    ta.start()
+    if rng.random() < 0.7:
+        dsched.FAKE_TIME.sleep(rng.choice([0.0, 0.0005, 0.003]))
+    tb.start()
+    ta.join()
+    tb.join()
+    s.recording = False
+    dsched.FAKE_TIME.sleep(0.5)
+    for i in range(k2):
+        c1.publish_signal("pub", "s", 200 + i)
+        obs["pubs"].append(200 + i)
+    dsched.FAKE_TIME.sleep(1.0)
+    for nm, r in (("local", r_loc), ("remote", r_rem), ("old-local", r_old), ("old-remote", r_old2)):
+        q = []
+        while True:
+            try:
+                g = r.get_next_signal(0)
+            except QMI_TimeoutException:
+                break
+            q.append([g.publisher_context, g.publisher_name, g.signal_name, g.args[0] if len(g.args) == 1 else -1])
+        obs["queues"][nm] = q
+    obs["tables"] = {"c1.lsubs": sorted(sm._local_subscriptions), "c1.rsubs": sorted(sm._remote_subscriptions),
+                     "c2.lsubs": sorted(c2._signal_manager._local_subscriptions)}
+    obs["done"] = True
+    c2.stop()
+    c1.stop()
+    return obs
+
+
+def recreate_oracle(obs):
+    """The receivers subscribed to the NEW publisher (their subscribe calls returned, nobody unsubscribed, the
+    publisher exists) must get each of its publications exactly once, in order."""
+    pubs = list(obs["pubs"])
+    for nm in ("local", "remote"):
+        if obs["subs"].get(nm) != "ok":
+            return "subscribe-failed", "subscribe of the %s receiver to the re-created publisher did not return" % nm
+        got = [a for (_, _, _, a) in obs["queues"][nm]]
+        for rec in obs["queues"][nm]:
+            if rec[:3] != ["c1", "pub", "s"] or rec[3] not in pubs:
+                return "wrong-record", "%s receiver got %r which was never published" % (nm, rec)
+        if got != pubs:
+            kind = "duplicate-record" if len(set(got)) < len(got) else ("missing-record" if set(got) < set(pubs) else "order")
+            return kind, ("the %s receiver is subscribed to the re-created publisher c1.pub (signal s) but got %r instead of %r "
+                          "(c1 lsubs=%r rsubs=%r, c2 lsubs=%r)" % (nm, got, pubs, obs["tables"]["c1.lsubs"], obs["tables"]["c1.rsubs"],
+                                                                 obs["tables"]["c2.lsubs"]))
+    return None
+
+
+def lifecycle_term(events):
+    nm = S.cs("pub")
+    m = {"mark": "EvMark", "cleanup": "EvCleanup", "release": "EvRelease", "reserve": "EvReserve"}
+    return clist(["%s %s" % (m[e], nm) for e in events if e in m])
+
+
+def run_recreate(ck, prop, n):
+    """Run the remove/re-create family; oracle + the life-cycle hypothesis of the model on every schedule."""
+    jobs = [(scenario_recreate, (ck.rng.randint(0, 10 ** 6), i % 2 == 0), dict(strategy="random" if i % 2 else "pct", seed=i))
+            for i in range(n)]
+    results = dsched.run_forked(jobs, nproc=16, wall_timeout=60.0)
+    terms, metas = [], []
+    for (fn, args, kw), res in zip(jobs, results):
+        ck.note_case(("recreate", args, kw["seed"], tuple(res.get("choices") or ())[:50]), True)
+        ck.count("recreate%s:%s" % ("+lines" if args[1] else "", res["status"]))
+        rp = {"kind": "recreate", "seed": args[0], "lines": args[1], "sched": kw, "schedule": res.get("choices")}
+        if res["status"] != "ok" or not (res.get("obs") or {}).get("done"):
+            ck.report("oracle:%s:recreate:%s" % (prop.lower(), res["status"]),
+                      "remove/re-create run did not finish (%s): %s" % (res["status"], str(res.get("info") or res.get("trace"))[:600]), rp)
+            continue
+        o = res["obs"]
+        if o["tries"] > 1:
+            ck.count("recreate:creator-had-to-retry")
+        bad = recreate_oracle(o)
+        if bad:
+            ck.report("oracle:%s:recreate:%s" % (prop.lower(), bad[0]),
+                      "%s fails on real contexts (publisher removed and re-created under the same name): %s" % (prop, bad[1]),
+                      dict(rp, events=o["events"], queues=o["queues"], pubs=o["pubs"]))
+        terms.append(lifecycle_term(o["events"]))
+        metas.append((rp, o, bad))
+    bad_idx = ck.run_model("C07.Corr", "lifecycle_ok", terms, "list objev", shard=400)
+    ck.coverage["lifecycle_hypothesis_rejected"] = len(bad_idx)
+    for i in bad_idx[:3]:
+        rp, o, bad = metas[i]
+        ck.report("corr:object-lifecycle:%s" % ("oracle-fails" if bad else "hypothesis-broken"),
+                  "hypothesis of the model broken on a real schedule: the name 'pub' was reserved again between its release and "
+                  "handle_object_removed('pub') of the previous incarnation (events %r)%s" % (
+                      o["events"], ": " + bad[1] if bad else " (the property oracle passes on this schedule)"),
+                  dict(rp, events=o["events"], queues=o["queues"], pubs=o["pubs"],
+                       broken="hypothesis C07.Corr.lifecycle_ok (IObjRemove is atomic w.r.t. the object's name)"),
+                  found_input=bool(bad))
+
+
 def thread_oracle(obs, remote):
     """C07 on the call log of real threads: ops are intervals [t0,t1] of a global tick counter."""
     pubs = {e[3]: e for e in obs["log"] if e[0] == "pub"}
@@ -611,13 +793,33 @@ def run(ck):
             ck.report("oracle:c07:fanout:%s" % bad[0], "C07 fails on real contexts (one publisher, several subscriber contexts): " + bad[1],
                       dict(rp, queues=res["obs"]["queues"], pubs=res["obs"]["pubs"]))
         ck.count("fanout:records", sum(len(q) for q in res["obs"]["queues"].values()))
+    run_recreate(ck, "C07", 240 if ck.tier == "quick" else 3000)
     return ck.finish("exhaustive op sequences (12-letter alphabet, 3 prefixes) + seeded random histories on 1-3 contexts with "
                      "re-entrant interleaving inside publish + random thread schedules of real contexts; non-trivial = at "
                      "least one record or message delivered; distinct by label sequence")
 
 
+def replay_recreate(c):
+    import qmi.core.context, qmi.core.rpc, qmi.core.pubsub, qmi.core.messaging, qmi.core.task  # noqa
+    res = dsched.run_forked([(scenario_recreate, (c["seed"], bool(c.get("lines"))),
+                              dict(strategy="replay", schedule=list(c["schedule"] or [])))], nproc=1, wall_timeout=60.0)[0]
+    print("status:", res["status"])
+    if res["status"] != "ok":
+        print(res.get("info") or res.get("trace"))
+        return 1
+    o = res["obs"]
+    print("life-cycle events of 'pub':", o["events"])
+    print("published by the new object:", o["pubs"])
+    print("queues:", o["queues"], "tables:", o["tables"])
+    bad = recreate_oracle(o)
+    print("oracle:", bad or "property holds on this schedule")
+    return 1 if bad else 0
+
+
 def replay(rep):
     c = rep["case"]
+    if c.get("kind") == "recreate":
+        return replay_recreate(c)
     if c.get("kind") == "fanout":
         import qmi.core.context, qmi.core.rpc, qmi.core.pubsub, qmi.core.messaging, qmi.core.task  # noqa
         res = dsched.run_forked([(scenario_fanout, (c["seed"], bool(c.get("lines"))),
